@@ -371,6 +371,34 @@ namespace plan
           t += s.text + "\n";
       return t;
     }
+    // another equivalent formulation: one top-level fact is stated twice (under a second name, right after the original). The
+    // second copy can always be unified with the first, so the verdict must not change. Facts on reusable resources are left
+    // alone (`Use` atoms never unify: stating one twice does double the usage). Empty when there is no such fact
+    std::string variant_fact_twice(uint64_t seed) const
+    {
+      std::vector<const Stmt *> cands;
+      for (auto &s : m.stmts)
+        if (s.k == Stmt::FORMULA && s.item && s.item->is_fact && s.item->pred >= 0 && s.text.compare(0, 5 + s.item->local.size() + 3, "fact " + s.item->local + " = ") == 0)
+          cands.push_back(&s);
+      if (cands.empty())
+        return std::string();
+      const Stmt *pick = cands[sim::Rng(seed).derive("twice").below(cands.size())];
+      std::string t = m.decl_text.empty() ? std::string() : m.decl_text.back();
+      for (auto &s : m.stmts)
+        if (s.k == Stmt::DECL)
+          t += s.text + "\n";
+      for (auto &s : m.stmts)
+        if (s.k == Stmt::FORMULA || s.k == Stmt::DISJ)
+        {
+          t += s.text + "\n";
+          if (&s == pick)
+            t += "fact " + s.item->local + "_again = " + s.text.substr(5 + s.item->local.size() + 3) + "\n";
+        }
+      for (auto &s : m.stmts)
+        if (s.k == Stmt::ASSERT)
+          t += s.text + "\n";
+      return t;
+    }
     // another equivalent formulation: every disjunction statement gets one more disjunct that can never be chosen (a goal
     // whose rule is `false`); declarations first, everything else in the original order. Empty when there is no disjunction
     std::string variant_with_dead_disjunct() const
